@@ -527,6 +527,21 @@ def mon_stuck(run, cap):
         bad.append(f"sender blocked for ever although only {len(buffered)} of {cap} buffer places are used")
     if bs and cap == "u":
         bad.append("sender blocked on an unbounded channel")
+    # disconnect: nobody stays blocked once the last handle of the opposite side is gone
+    m = re.search(r"threads=(\d+)", getattr(run, "header", "") or "")
+    if m and blocked:
+        live = {"s": int(m.group(1)), "r": int(m.group(1))}
+        for o in ops:
+            t = o["op"].split(" ")
+            if o["ret"] is not None and (o["res"] or "").startswith("ok") and len(t) >= 2 and t[1] in live:
+                if t[0] == "clone":
+                    live[t[1]] += 1
+                elif t[0] == "drop":
+                    live[t[1]] -= 1
+        if bs and live["r"] <= 0:
+            bad.append(f"sender ({bs[0]['tid']} {bs[0]['op']}) blocked for ever although every receiver handle has been dropped")
+        if br and live["s"] <= 0:
+            bad.append(f"receiver ({br[0]['tid']} {br[0]['op']}) blocked for ever although every sender handle has been dropped")
     return bad
 
 
